@@ -2,7 +2,7 @@
    Statements only; proofs are in Proofs/BTree*.v, the model in Model/BTreeM.v. *)
 From DV Require Import Base.Prelude Model.BTreeM Proofs.BTreeBase Proofs.BTreeWf Proofs.BTreeInsert
   Proofs.BTreeLookup Proofs.BTreeDelete Proofs.BTreeTop
-  Model.BTreeStoreM Proofs.BTreeStore Proofs.BTreeIsolation Proofs.BTreeCursor.
+  Model.BTreeStoreM Proofs.BTreeStore Proofs.BTreeIsolation Proofs.BTreeCursor Proofs.BTreeHistory.
 
 (* _Node.search_in_node (shortcut + binary search) on a key-sorted node = linear search *)
 Theorem search_spec : forall k es, ksorted es -> search k es = Ok (lsearch k es).
@@ -128,6 +128,28 @@ Theorem cursor_position_unique : forall a l bef aft bef' aft',
 Proof. exact pos_ok_unique. Qed.
 Print Assumptions cursor_position_unique.
 
+(* Whole histories.  `enc` is the operation syntax the harness sends, `steps` the fold of the
+   model over a history (BTreeM.step: trees, clones, frozen trees, registered cursors parked by
+   every mutation), `rsteps` the same history answered by the reference world: one sorted
+   association list per tree (ins_sorted / del_sorted / find_sorted / length) and one anchor per
+   cursor.  For EVERY history - any keys, any t >= 3, in_order on or off, freeze / clone points
+   anywhere, any number of live cursors - the two answer every step identically: element
+   returned by insert / delete_key / delete_exact (incl. its ValueErrors), lookups, len, in-order
+   items, __iter__, KeyError of the mapping API, set membership, Immutable on frozen trees,
+   cursor next / prev results before and after arbitrary mutations. *)
+Theorem history_refines : forall xs, steps (mkW [] []) (map enc xs) = rsteps (mkRW [] []) xs.
+Proof. exact history_refines_proof. Qed.
+Print Assumptions history_refines.
+
+(* ... and in every reachable world all trees are well-formed (occupancy, uniform leaf depth,
+   order) with size = number of elements, and every cursor is representable *)
+Theorem history_wf : forall xs,
+  let w := wsteps (mkW [] []) (map enc xs) in
+  Forall bwf (w_trees w) /\
+  Forall (fun tc => exists b, nth_error (w_trees w) (fst tc) = Some b /\ cinv (b_t b) (b_root b) (snd tc)) (w_cursors w).
+Proof. exact history_wf_proof. Qed.
+Print Assumptions history_wf.
+
 (* Copy-on-write isolation, on the store-level model (nodes with ids and creator tags, in-place
    writes, maybe_cow / maybe_cow_child / clone allocate).  After ANY history of operations
    (new trees, inserts, deletes, freezes, clones - `execs`), one more operation on a tree leaves
@@ -172,3 +194,12 @@ Example cow_isolated_inhabited :
   abs 3 (sw_store w') 0 = Some (Node true [(1, 1); (2, 2)] []) /\
   abs 3 (sw_store w') 1 = Some (Node true [(1, 1); (2, 2); (3, 3)] []).
 Proof. vm_compute. repeat split. Qed.
+
+(* non-vacuity of the history theorems: a concrete history through model and reference *)
+Example history_inhabited :
+  let xs := [VNew 3 false; VIns 0 5 1 false; VIns 0 3 2 true; VCur 0; VSeek 0 4 true; VNext 0;
+             VDel 0 5; VNext 0; VFreeze 0; VClone 0 false; VIns 1 9 3 false; VIns 0 9 4 false; VItems 0; VItems 1] in
+  steps (mkW [] []) (map enc xs) =
+  [N; N; N; N; N; L [I 5; I 1]; L [I 5; I 1]; N; N; N; N; Prelude.E eImmutable;
+   L [L [I 3; I 2]]; L [L [I 3; I 2]; L [I 9; I 3]]].
+Proof. vm_compute. reflexivity. Qed.
